@@ -126,8 +126,15 @@ def run_check(chk, argv=None):
     while tasks:
         rounds += 1
         next_tasks = []
+        done = 0
+        t_last = time.time()
         with ctx.Pool(processes=max(1, min(args.jobs, len(tasks)))) as pool:
             for res in pool.imap_unordered(_worker, tasks, chunksize=1):
+                done += 1
+                if os.environ.get("VERIF_PROGRESS") and time.time() - t_last > 30:
+                    t_last = time.time()
+                    sys.stderr.write("[progress %s round %d: %d/%d tasks, %d paths, %.0fs]\n" % (pid, rounds, done, len(tasks), total.paths, time.time() - t_start))
+                    sys.stderr.flush()
                 kind = res[0]
                 if kind == "validate":
                     n_validated += res[1]
